@@ -24,10 +24,10 @@ from ..model import AnalysisError
 from ..rules import tainted_names
 from .. import x_sre
 from ..x_emit import fold_format, PH
-from ..x_valuewalk import single_assignment, own_nodes
+from ..x_valuewalk import single_assignment, own_nodes, alias_expand
 from .c21 import qualify
 
-TECHNIQUE = "dataflow/dominance on make_link's CFG + path-sensitive protocol typestate + regex-AST entity analysis + exhaustive folding of the clip guard over all cut positions"
+TECHNIQUE = "dataflow/dominance on make_link's CFG + exhaustive case analysis of the protocol decision by partial evaluation (constant folding) of make_link's CFG + regex-AST entity analysis + exhaustive folding of the clip guard over all cut positions"
 EXPLANATION = (
     "linkify: the subject of _URL_RE.sub is the (to_unicode of the) xhtml_escape of the text parameter and the substitution is what is returned.  "
     "make_link: every return is classified (untouched match / anchor); an exploration tracking the predicates proto, proto in permitted_protocols, "
@@ -64,7 +64,7 @@ def regex_info(ck, sub):
     v = m.assigns[rname]
     if not (q.is_call(v, "re.compile") and v.args):
         raise AnalysisError("URL regex is not re.compile(<constant>)")
-    pat = x_sre.pattern_constant(v.args[0], wrappers=("to_unicode", "_unicode", "native_str", "to_basestring"))
+    pat = x_sre.pattern_constant(v.args[0], wrappers=("to_unicode", "_unicode", "native_str", "to_basestring"), module=m)
     flags = x_sre.flag_value(q.kwarg(v, "flags") or (v.args[1] if len(v.args) > 1 else None))
     return rname, v, pat, flags, x_sre.parse(pat, flags)
 
@@ -111,41 +111,91 @@ def _anchor(v):
     return None
 
 
+MARK = "\u00a7MATCH\u00a7"
+PERMITTED = ("http", "https")
+PROTO_CASES = ("http", "https", "HTTP", "httpsx", "ftp", "javascript", "", None)
+PURE_STR = {"startswith", "endswith", "lower", "upper", "strip", "lstrip", "rstrip", "casefold"}
+
+
+def rich_fold(e, env):
+    """Constant folding that also knows a few pure str/tuple operations (so that a guard such as
+    ``proto.startswith(tuple(permitted))`` or ``proto.lower() in permitted`` is *decided* for a concrete case)."""
+    from ..x_peval import UNK
+
+    if isinstance(e, ast.Constant):
+        return e.value
+    d = q.dotted(e) if isinstance(e, (ast.Name, ast.Attribute)) else None
+    if d is not None:
+        if d in env and env[d] is not UNK:
+            return env[d]
+        raise q.NotFoldable(d)
+    if isinstance(e, (ast.Tuple, ast.List, ast.Set)):
+        return tuple(rich_fold(x, env) for x in e.elts)
+    if isinstance(e, ast.BoolOp):
+        r = None
+        for v in e.values:
+            r = rich_fold(v, env)
+            if isinstance(e.op, ast.And) and not r:
+                return r
+            if isinstance(e.op, ast.Or) and r:
+                return r
+        return r
+    if isinstance(e, ast.UnaryOp) and isinstance(e.op, ast.Not):
+        return not rich_fold(e.operand, env)
+    if isinstance(e, ast.Compare):
+        left = rich_fold(e.left, env)
+        for op, rhs in zip(e.ops, e.comparators):
+            right = rich_fold(rhs, env)
+            try:
+                ok = {ast.Eq: lambda: left == right, ast.NotEq: lambda: left != right, ast.In: lambda: left in right, ast.NotIn: lambda: left not in right,
+                      ast.Is: lambda: left is right or (left is None and right is None), ast.IsNot: lambda: not (left is right)}[type(op)]()
+            except Exception as ex:
+                raise q.NotFoldable(str(ex))
+            if not ok:
+                return False
+            left = right
+        return True
+    if isinstance(e, ast.Call) and not e.keywords:
+        if isinstance(e.func, ast.Name) and e.func.id in ("tuple", "list", "set", "frozenset", "bool", "len", "str") and len(e.args) == 1:
+            v = rich_fold(e.args[0], env)
+            try:
+                return {"tuple": tuple, "list": tuple, "set": frozenset, "frozenset": frozenset, "bool": bool, "len": len, "str": str}[e.func.id](v)
+            except Exception as ex:
+                raise q.NotFoldable(str(ex))
+        if isinstance(e.func, ast.Attribute) and e.func.attr in PURE_STR:
+            recv = rich_fold(e.func.value, env)
+            args = [rich_fold(a, env) for a in e.args]
+            if isinstance(recv, str):
+                try:
+                    return getattr(recv, e.func.attr)(*args)
+                except Exception as ex:
+                    raise q.NotFoldable(str(ex))
+    if isinstance(e, ast.BinOp) and isinstance(e.op, ast.Add):
+        l, r = rich_fold(e.left, env), rich_fold(e.right, env)
+        if isinstance(l, str) and isinstance(r, str):
+            return l + r
+    raise q.NotFoldable(q.unparse(e))
+
+
 def rule_make_link(ck, lk, mk, sub):
+    """Exhaustive case analysis of make_link by partial evaluation of its CFG: the match is a marker string, the
+    protocol group and the require/permitted settings take concrete values, every test that folds is decided."""
+    from ..x_peval import peval, UNK, STOP
+
     rid_r = "C22.plain-returns"
     rid_p = "C22.protocol-guard"
     cfg = mk.cfg
     mp = mk.params()[0]
-    # group variables
-    groups = {}
-    for st in q.walk_body(mk.node):
-        if isinstance(st, ast.Assign) and q.is_call(st.value, mp + ".group") and len(st.value.args) == 1 and isinstance(st.value.args[0], ast.Constant) and len(st.targets) == 1 and isinstance(st.targets[0], ast.Name):
-            groups.setdefault(st.targets[0].id, set()).add(st.value.args[0].value)
-    whole = [n for n, g in groups.items() if g == {1}]
-    proto = [n for n, g in groups.items() if g == {2}]
-    if not whole or len(proto) != 1:
-        raise AnalysisError("make_link: match group variables not found (%s)" % groups)
-    proto = proto[0]
+    perm = [p for p in lk.params() if "permitted" in p]
+    req = [p for p in lk.params() if "require" in p]
+    if len(perm) != 1 or len(req) != 1:
+        raise AnalysisError("linkify: protocol parameters not found")
+    perm, req = perm[0], req[0]
     rets = cfg.stmt_nodes(lambda n: n.kind == "stmt" and isinstance(n.ast, ast.Return))
-    anchors = []
-    plain = []
-    for r in rets:
-        a = _anchor(r.ast.value)
-        (anchors if a else plain).append(r)
+    anchors = [r for r in rets if _anchor(r.ast.value)]
+    plain = [r for r in rets if not _anchor(r.ast.value)]
     ck.floor(rid_r, len(plain), 1, "non-link returns in make_link")
     ck.floor(rid_p, len(anchors), 1, "anchor returns in make_link")
-    # plain returns: the match, never modified before
-    for r in plain:
-        v = r.ast.value
-        ok = False
-        if q.is_call(v, mp + ".group") and len(v.args) == 1 and (q.is_const(v.args[0], 1) or q.is_const(v.args[0], 0)):
-            ok = True
-        elif isinstance(v, ast.Name) and v.id in whole:
-            defs = cfg.stmt_nodes(lambda n: n.kind == "stmt" and v.id in q.assigned_paths(n.ast))
-            reaching = [d for d in defs if _reaches(cfg, d, r)]
-            ok = bool(reaching) and all(q.is_call(d.ast.value, mp + ".group") for d in reaching if isinstance(d.ast, ast.Assign)) and all(isinstance(d.ast, ast.Assign) for d in reaching)
-        ck.ob(rid_r, mk, r.ast, ok, "a match that is not linkified is returned exactly as matched (the escaped text)")
-    # anchor returns
     href_var = None
     for r in anchors:
         t, xs = _anchor(r.ast.value)
@@ -154,75 +204,82 @@ def rule_make_link(ck, lk, mk, sub):
         ok = i >= 0 and t[i + len('href="' + PH):].startswith('"')
         ck.ob(rid_r, mk, r.ast, ok, "the href value is interpolated inside double quotes")
         if ok:
-            k = t[:i + len('href="')].count(PH)
-            hv = q.dotted(xs[k])
+            hv = q.dotted(xs[t[:i + len('href="')].count(PH)])
             href_var = href_var or hv
             ck.ob(rid_r, mk, r.ast, hv is not None and hv == href_var, "one href variable")
     if href_var is None:
         return
-    # href derives from the match only (plus the literal scheme prefix)
-    for st in q.stores_to(mk.node, href_var):
-        v = st.value
-        ok = (q.is_call(v, mp + ".group") and q.is_const(v.args[0], 1)) or q.dotted(v) in whole or _is_http_prefix(v, href_var, whole, mp)
-        ck.ob(rid_p, mk, st, bool(ok), "href is the matched URL, optionally with the literal 'http://' prefix")
-    perm = [p for p in lk.params() if "permitted" in p]
-    req = [p for p in lk.params() if "require" in p]
-    if len(perm) != 1 or len(req) != 1:
-        raise AnalysisError("linkify: protocol parameters not found")
-    perm, req = perm[0], req[0]
-    t_proto, t_perm, t_req = proto, "%s in %s" % (proto, perm), req
-    for st in q.walk_body(mk.node):
-        if isinstance(st, (ast.Assign, ast.AugAssign)) and ({proto, perm, req} & q.assigned_paths(st)) and not q.is_call(getattr(st, "value", None), mp + ".group"):
-            raise AnalysisError("make_link rebinds a protocol predicate variable")
+    group_nodes = {}
+    for n in cfg.stmt_nodes(lambda n: n.kind == "stmt" and isinstance(n.ast, ast.Assign)):
+        v = n.ast.value
+        if q.is_call(v, mp + ".group") and len(v.args) == 1 and isinstance(v.args[0], ast.Constant) and len(n.ast.targets) == 1 and isinstance(n.ast.targets[0], ast.Name):
+            group_nodes[n.id] = (n.ast.targets[0].id, v.args[0].value)
+    if not any(g == 2 for _, g in group_nodes.values()):
+        raise AnalysisError("make_link: the protocol group is not bound to a local")
+    n_anchor = n_plain = 0
+    seen_cases = set()
+    for proto in PROTO_CASES:
+        for rq in (True, False):
 
-    def transfer(n, val):
-        h, fp, fperm, freq = val
-        if n.kind == "stmt" and isinstance(n.ast, (ast.Assign, ast.AugAssign)) and href_var in q.assigned_paths(n.ast):
-            v = n.ast.value
-            if isinstance(n.ast, ast.Assign) and _is_http_prefix(v, href_var, whole, mp):
-                h = "http"
-            elif isinstance(n.ast, ast.Assign) and ((q.is_call(v, mp + ".group") and q.is_const(v.args[0], 1)) or q.dotted(v) in whole):
-                h = "raw"
-            else:
-                h = "?"
-        return (h, fp, fperm, freq)
+            def hook(n, env, proto=proto):
+                if n.id in group_nodes:
+                    name, g = group_nodes[n.id]
+                    whole = (proto + "://" + MARK) if proto else ("www." + MARK)
+                    env[name] = {1: whole, 0: whole, 2: proto, 3: ("//" if proto else None)}.get(g, UNK)
+                    return True
+                return None
 
-    def edge(n, kind, val):
-        h, fp, fperm, freq = val
-        if n.kind == "test" and kind in ("true", "false"):
-            t, pol = canon_fact(n.ast, kind == "true")
-            if t == t_proto:
-                if fp is not None and fp != pol:
+            def on_edge(n, kind, env):
+                names = q.names_in(n.ast)
+                try:
+                    v = rich_fold(n.ast, env)
+                except q.NotFoldable:
+                    env["@undecided"] = tuple(sorted(set(env.get("@undecided", ())) | {q.unparse(n.ast)}))
                     return None
-                fp = pol
-            elif t == t_perm:
-                if fperm is not None and fperm != pol:
-                    return None
-                fperm = pol
-            elif t == t_req:
-                if freq is not None and freq != pol:
-                    return None
-                freq = pol
-        return (h, fp, fperm, freq)
+                if bool(v) != (kind == "true"):
+                    return STOP
+                return None
 
-    seen = explore(cfg, ("unset", None, None, None), transfer, lambda t: False, edge_transfer=edge, follow_exc=False)
-    tri = {True: "yes", False: "no", None: "untested"}
-    n_states = 0
-    for r in anchors:
-        for _f, (h, fp, fperm, freq) in sorted(seen.get(r.id, ()), key=repr):
-            n_states += 1
-            # permitted: either no protocol at all, or membership established
-            ok1 = fp is False or fperm is True
-            ck.ob(rid_p, mk, r.ast, ok1, "an anchor is returned only for a permitted protocol or none (path: proto=%s, permitted=%s)" % (tri[fp], tri[fperm]), construct="anchor proto=%s permitted=%s" % (tri[fp], tri[fperm]))
-            ok2 = freq is False or fp is True
-            ck.ob(rid_p, mk, r.ast, ok2, "a protocol-less match is linkified only when no protocol is required (path: require=%s, proto=%s)" % (tri[freq], tri[fp]), construct="anchor require=%s proto=%s" % (tri[freq], tri[fp]))
-            if fp is False:
-                ck.ob(rid_p, mk, r.ast, h == "http", "a protocol-less href gets the http:// prefix (href state %s)" % h, construct="anchor proto=no href=%s" % h)
-            elif fp is True:
-                ck.ob(rid_p, mk, r.ast, h == "raw", "an href with a protocol is the matched URL itself (href state %s)" % h, construct="anchor proto=yes href=%s" % h)
-            else:
-                ck.ob(rid_p, mk, r.ast, False, "the anchor return is reached without deciding whether the match has a protocol", construct="anchor proto=untested")
-    ck.floor(rid_p, n_states, 2, "states at the anchor return")
+            states = peval(cfg, {req: rq, perm: PERMITTED, "@undecided": ()}, hook=hook, on_edge=on_edge, follow_exc=False, refine=False, pure_methods=PURE_STR | {"group", "split", "rfind", "find", "replace", "format", "join", "partition"})
+            expected = (proto in PERMITTED) or (not proto and not rq)
+            case = "proto=%r require_protocol=%s" % (proto, rq)
+            for r in rets:
+                for _facts, env in states.get(r.id, []):
+                    und = [t for t in env.get("@undecided", ()) if {x for x in q.names_in(ast.parse(t, mode="eval"))} & ({req, perm} | {nm for nm, g in group_nodes.values() if g == 2})]
+                    if r in anchors:
+                        n_anchor += 1
+                        if und:
+                            raise AnalysisError("make_link: protocol test %s is not decided for %s" % (und, case))
+                        key = ("a", proto, rq)
+                        if key not in seen_cases:
+                            seen_cases.add(key)
+                            ck.ob(rid_p, mk, r.ast, expected, "%s: an anchor is produced only for a permitted protocol, or for no protocol when none is required" % case, construct="anchor for %s" % case)
+                        h = env.get(href_var, UNK)
+                        if h is UNK:
+                            recoded = [c_.func.attr if isinstance(c_.func, ast.Attribute) else c_.func.id for st_ in q.stores_to(mk.node, href_var) for c_ in ast.walk(st_.value) if isinstance(c_, ast.Call) and q.call_attr(c_) in TRANSCODERS]
+                            if recoded:
+                                ck.ob(rid_p, mk, r.ast, False, "href is the matched (escaped) URL, optionally with the literal 'http://' prefix -- not a re-coded form of it (calls %s)" % recoded, construct="href recoded by %s" % recoded)
+                                continue
+                            raise AnalysisError("make_link: href is not a foldable function of the match for %s" % case)
+                        whole = (proto + "://" + MARK) if proto else ("www." + MARK)
+                        want = whole if proto else "http://" + whole
+                        key = ("h", proto, rq, h)
+                        if key not in seen_cases:
+                            seen_cases.add(key)
+                            ck.ob(rid_p, mk, r.ast, h == want, "%s: href is %s (found %r)" % (case, "the matched URL itself" if proto else "'http://' + the matched URL", h if not isinstance(h, str) else h.replace(MARK, "<match>")), construct="href for %s = %s" % (case, str(h).replace(MARK, "<match>")))
+                    else:
+                        n_plain += 1
+                        v = r.ast.value
+                        try:
+                            val = rich_fold(v, env) if v is not None else None
+                        except q.NotFoldable:
+                            raise AnalysisError("make_link: value returned for a match that is not linkified is not a foldable function of the match (%s)" % q.unparse(v))
+                        key = ("p", val)
+                        if key not in seen_cases:
+                            seen_cases.add(key)
+                            ck.ob(rid_r, mk, r.ast, isinstance(val, str) and val.endswith(MARK) and val in ((str(proto) + "://" + MARK), "www." + MARK), "a match that is not linkified is returned exactly as matched (the escaped text)", construct="plain return %s" % str(val).replace(MARK, "<match>"))
+    ck.floor(rid_p, n_anchor, 3, "anchor outcomes over the protocol cases")
+    ck.floor(rid_r, n_plain, 3, "non-link outcomes over the protocol cases")
 
 
 def _is_http_prefix(v, href_var, whole, mp):
@@ -301,24 +358,47 @@ def rule_entity_clip(ck, lk, mk, sub, lmax):
         if sl:
             truncs.append((n, sl))
     ck.floor(rid, len(truncs), 1, "label truncation sites")
-    # the guard: `if <test>: label = label[:amp]` with amp = label.rfind('&')
-    amp_defs = [n for n in cfg.stmt_nodes(lambda n: n.kind == "stmt" and isinstance(n.ast, ast.Assign) and isinstance(n.ast.value, ast.Call) and isinstance(n.ast.value.func, ast.Attribute) and n.ast.value.func.attr in ("rfind", "find", "rindex", "index") and n.ast.value.args and q.is_const(n.ast.value.args[0], "&"))]
+    # the guard: the last '&' of the label is looked up, here or in a same-module helper the label is passed through
+    amp_defs = _amp_lookups(mk)
     if not amp_defs:
-        for n, sl in truncs:
-            ck.ob(rid, mk, n.ast, False, "after truncating the label the last '&' is examined so that no entity is split")
+        helpers = _label_helpers(ck, lk, mk, label, derived)
+        with_lookup = [(n, c, h) for n, c, h in helpers if _amp_lookups(h)]
+        if not with_lookup:
+            if helpers:
+                raise AnalysisError("make_link: the label passes through %s, which has no recognisable '&' look-up" % sorted({h.qualname for _, _, h in helpers}))
+            for n, sl in truncs:
+                ck.ob(rid, mk, n.ast, False, "after truncating the label the last '&' is examined so that no entity is split")
+            return
+        for n, c, h in with_lookup:
+            ck.use(h)
+            L = h.params()[0]
+            had = _amp_lookups(h)
+            if len(had) != 1:
+                raise AnalysisError("%s: several '&' look-ups" % h.qualname)
+            hamp = q.dotted(had[0].ast.targets[0])
+            ck.ob(rid, h, had[0].ast, had[0].ast.value.func.attr == "rfind" and q.dotted(had[0].ast.value.func.value) == L and len(had[0].ast.value.args) == 1, "the *last* '&' of the (truncated) label is looked up")
+            exits = []
+            for r in h.cfg.stmt_nodes(lambda x: x.kind == "stmt" and isinstance(x.ast, ast.Return)):
+                v = alias_expand(h.node, r.ast.value)
+                if q.dotted(v) == L or q.dotted(r.ast.value) == L:
+                    exits.append((r, False))
+                elif _is_cut(r.ast.value, L, hamp):
+                    exits.append((r, True))
+                else:
+                    raise AnalysisError("%s: returned value not understood: %s" % (h.qualname, q.unparse(r.ast.value)))
+            _dual_check(ck, rid, h, L, hamp, exits)
+            for tn, sl in truncs:
+                ck.ob(rid, mk, tn.ast, not _reaches(cfg, n, tn) or tn.id == n.id, "no truncation of the label happens after the entity guard (%s)" % h.name)
+            ck.ob(rid, mk, c, len(c.args) == 1 and q.dotted(c.args[0]) == label and label in q.assigned_paths(n.ast), "the whole truncated label goes through the entity guard and its result becomes the label")
         return
     if len(amp_defs) != 1:
         raise AnalysisError("make_link: several '&' look-ups")
     ad = amp_defs[0]
     amp = q.dotted(ad.ast.targets[0])
     ck.ob(rid, mk, ad.ast, ad.ast.value.func.attr == "rfind" and q.dotted(ad.ast.value.func.value) == label and len(ad.ast.value.args) == 1, "the *last* '&' of the (truncated) label is looked up")
-    cuts = [n for n in cfg.stmt_nodes(lambda n: n.kind == "stmt" and isinstance(n.ast, ast.Assign) and label in q.assigned_paths(n.ast)) if isinstance(n.ast.value, ast.Subscript) and q.dotted(n.ast.value.value) == label and isinstance(n.ast.value.slice, ast.Slice) and q.dotted(n.ast.value.slice.upper) == amp and n.ast.value.slice.lower is None]
-    if len(cuts) != 1:
-        ck.ob(rid, mk, ad.ast, False, "the label is cut at the last '&' when that entity would be split", construct="cut label[:amp] sites %d" % len(cuts))
-        return
-    cut = cuts[0]
-    truncs = [(n, sl) for n, sl in truncs if n.id != cut.id]
-    # all truncations happen before the look-up; the look-up feeds the guard directly
+    cuts = [n for n in cfg.stmt_nodes(lambda n: n.kind == "stmt" and isinstance(n.ast, ast.Assign) and label in q.assigned_paths(n.ast)) if _is_cut(n.ast.value, label, amp)]
+    truncs = [(n, sl) for n, sl in truncs if n.id not in {c_.id for c_ in cuts}]
+    # all truncations happen before the look-up
     for n, sl in truncs:
         ck.ob(rid, mk, n.ast, not _reaches(cfg, ad, n), "no truncation of the label happens after the '&' look-up")
     # the ellipsis is appended only after the guard ran
@@ -326,6 +406,15 @@ def rule_entity_clip(ck, lk, mk, sub, lmax):
     ck.floor(rid, len(ell), 1, "ellipsis append")
     for e in ell:
         ck.ob(rid, mk, e.ast, cfg.dominates(ad, e), "the ellipsis is appended only after the entity guard")
+    semi_tests = [t for t in cfg.stmt_nodes(lambda t: t.kind == "test") if _meaning(t.ast, True, label, amp) in ("semi", "nosemi")]
+    if semi_tests:
+        # shape (b): complete-entity test, decided on the paths (not on the syntactic position of the cut)
+        _dual_check(ck, rid, mk, label, amp, [(e, False) for e in ell])
+        return
+    if len(cuts) != 1:
+        ck.ob(rid, mk, ad.ast, False, "the label is cut at the last '&' when that entity would be split", construct="cut label[:amp] sites %d" % len(cuts))
+        return
+    cut = cuts[0]
     # guard condition: the conjunction of branch facts under which the cut executes
     pm = q.parent_map(mk.node)
     ifs = [a for a in q.ancestors(pm, cut.ast) if isinstance(a, ast.If)]
@@ -415,6 +504,16 @@ SAFE_LABEL_CALLS = {"split", "rsplit", "partition", "rpartition", "rfind", "find
 TRANSCODERS = {"xhtml_unescape", "unescape", "url_unescape", "unquote", "unquote_plus", "xhtml_escape", "escape", "url_escape", "quote", "quote_plus", "decode", "encode", "lower", "upper", "title", "replace", "translate", "format", "strip", "lstrip", "rstrip"}
 
 
+def _slicing_helper(lk, mk, name):
+    """A function of this module whose every return is its first parameter or a slice of it."""
+    h = mk.module.funcs.get(name) or mk.module.funcs.get(lk.qualname + ".<locals>." + name)
+    if h is None or not h.params():
+        return False
+    p0 = h.params()[0]
+    rets = [r for r in q.walk_body(h.node) if isinstance(r, ast.Return)]
+    return bool(rets) and all(r.value is not None and (q.dotted(alias_expand(h.node, r.value)) == p0 or (isinstance(alias_expand(h.node, r.value), ast.Subscript) and q.dotted(alias_expand(h.node, r.value).value) == p0 and isinstance(alias_expand(h.node, r.value).slice, ast.Slice))) for r in rets) and not any(isinstance(x, (ast.Assign, ast.AugAssign)) and p0 in q.assigned_paths(x) for x in q.walk_body(h.node))
+
+
 def rule_label_derived(ck, lk, mk):
     """The visible label is cut out of the matched (escaped) text: slices, pieces of a split and literal
     separators only -- no re-coding of the text and no markup characters added."""
@@ -437,6 +536,8 @@ def rule_label_derived(ck, lk, mk):
             nm = q.call_attr(c)
             if nm in SAFE_LABEL_CALLS:
                 continue
+            if isinstance(c.func, ast.Name) and _slicing_helper(lk, mk, c.func.id):
+                continue
             if nm in TRANSCODERS:
                 bad_calls.append(nm)
             else:
@@ -447,6 +548,102 @@ def rule_label_derived(ck, lk, mk):
         lits = [k.value for k in ast.walk(v) if isinstance(k, ast.Constant) and isinstance(k.value, str) and not any(isinstance(c, ast.Call) and k in c.args for c in ast.walk(v))]
         ck.ob(rid, mk, st, all(not (set(x) & set("<>&\"'")) for x in lits), "literal text added to the label contains no markup characters", construct="label literals %s" % lits)
     ck.floor(rid, n, 3, "label computations")
+
+
+def _amp_lookups(fi):
+    return [n for n in fi.cfg.stmt_nodes(lambda n: n.kind == "stmt" and isinstance(n.ast, ast.Assign) and isinstance(n.ast.value, ast.Call) and isinstance(n.ast.value.func, ast.Attribute) and n.ast.value.func.attr in ("rfind", "find", "rindex", "index") and n.ast.value.args and q.is_const(n.ast.value.args[0], "&"))]
+
+
+def _is_cut(v, L, amp):
+    return isinstance(v, ast.Subscript) and q.dotted(v.value) == L and isinstance(v.slice, ast.Slice) and q.dotted(v.slice.upper) == amp and v.slice.lower is None and v.slice.step is None
+
+
+def _label_helpers(ck, lk, mk, label, derived):
+    """(cfg node, call, helper FuncInfo) for calls, inside assignments to the label, of functions defined in this
+    module (or next to make_link) that receive label-derived text."""
+    m = mk.module
+    out = []
+    for n in mk.cfg.stmt_nodes(lambda n: n.kind == "stmt" and isinstance(n.ast, (ast.Assign, ast.AugAssign)) and label in q.assigned_paths(n.ast)):
+        for c in q.calls(n.ast.value):
+            if isinstance(c.func, ast.Name) and c.args and (q.names_in(c.args[0]) & derived):
+                h = m.funcs.get(c.func.id) or m.funcs.get(lk.qualname + ".<locals>." + c.func.id)
+                if h is not None and len(h.params()) >= 1:
+                    out.append((n, c, h))
+    return out
+
+
+def _meaning(e, pol, L, amp):
+    """What a branch outcome says: 'notfound'/'found' (is there an '&'), 'semi'/'nosemi' (does a ';' follow it)."""
+    while isinstance(e, ast.UnaryOp) and isinstance(e.op, ast.Not):
+        e, pol = e.operand, not pol
+    if not (isinstance(e, ast.Compare) and len(e.ops) == 1):
+        return None
+    op, l, r = e.ops[0], e.left, e.comparators[0]
+
+    def flip(x):
+        return {"semi": "nosemi", "nosemi": "semi", "found": "notfound", "notfound": "found"}[x]
+
+    res = None
+    if isinstance(op, (ast.In, ast.NotIn)) and q.is_const(l, ";") and isinstance(r, ast.Subscript) and q.dotted(r.value) == L and isinstance(r.slice, ast.Slice) and q.dotted(r.slice.lower) == amp and r.slice.upper is None:
+        res = "semi" if isinstance(op, ast.In) else "nosemi"
+    else:
+        try:
+            k = q.fold(r, {})
+        except q.NotFoldable:
+            return None
+        subj = None
+        if q.dotted(l) == amp:
+            subj = ("found", "notfound")
+        elif q.is_call(l, L + ".find") and len(l.args) == 2 and q.is_const(l.args[0], ";") and q.dotted(l.args[1]) == amp:
+            subj = ("semi", "nosemi")
+        if subj is None or not isinstance(k, int):
+            return None
+        yes, no = subj
+        table = {(ast.Eq, -1): no, (ast.NotEq, -1): yes, (ast.Lt, 0): no, (ast.GtE, 0): yes, (ast.Gt, -1): yes, (ast.LtE, -1): no}
+        res = table.get((type(op), k))
+        if res is None:
+            return None
+    return res if pol else flip(res)
+
+
+def _dual_check(ck, rid, F, L, amp, exits):
+    """On every path to an exit (where the possibly truncated label leaves the guard) either the label was cut at
+    the last '&', or the path established that there is no '&' or that a ';' follows the last '&'."""
+    cfg = F.cfg
+    cut_ids = {n.id for n in cfg.stmt_nodes(lambda n: n.kind == "stmt" and isinstance(n.ast, ast.Assign) and L in q.assigned_paths(n.ast) and _is_cut(n.ast.value, L, amp))}
+    lookups = {n.id for n in _amp_lookups(F)}
+
+    def transfer(n, val):
+        if n.id in lookups:
+            return "looked"
+        if n.id in cut_ids:
+            return "cut" if val in ("looked", "cut") else val
+        return val
+
+    seen = explore(cfg, "none", transfer, lambda t: amp in t, follow_exc=False)
+    n_states = 0
+    for node, is_cut in exits:
+        for facts, val in sorted(seen.get(node.id, ()), key=repr):
+            n_states += 1
+            why = None
+            if is_cut or val == "cut":
+                why = "cut at the last '&'"
+            else:
+                for t, pol in facts:
+                    try:
+                        e = ast.parse(t, mode="eval").body
+                    except SyntaxError:
+                        continue
+                    mng = _meaning(e, pol, L, amp)
+                    if mng == "notfound":
+                        why = "no '&' in the label"
+                    elif mng == "semi":
+                        why = "a ';' follows the last '&' (entity complete)"
+            if val == "none":
+                why = None
+            ck.ob(rid, F, node.ast, why is not None, "the label leaves the entity guard only %s" % (why or "after the last '&' was examined: cut there, or no '&', or a ';' after it (path: state=%s, facts=%s)" % (val, sorted(t for t, p_ in facts))),
+                  construct="guard exit state=%s facts=%s" % (val, sorted((t, p_) for t, p_ in facts)))
+    ck.floor(rid, n_states, 1, "paths through the entity guard")
 
 
 def _is_no_semicolon_after(c, label, amp):
